@@ -365,6 +365,9 @@ func (w *World) parseFuncContract(it rawItem, pkg *types.Package, external bool)
 	}
 	if r := c.Sig.Recv(); r != nil {
 		n := r.Name()
+		if hn := strings.TrimSpace(m[3]); hn != "" && (n == "" || n == "_" || isIface) {
+			n = hn // the receiver name written in the contract header
+		}
 		if n == "" || n == "_" {
 			n = "recv"
 		}
